@@ -216,7 +216,8 @@ def run(prop, tier, seed, replay=None):
         wit = json.load(open(wpath))
         wjob = {'nslots': wit['nslots'], 'nthreads': wit['nthreads'], 'capper': 4, 'states': wit.get('states', []),
                 'Schedules': [{'name': 'aba-witness', 'steps': wit['steps']}],
-                'random': {'n': 0, 'seed': 1, 'maxops': 1, 'traces': 0, 'nslots': [3], 'threads': [2]}, 'known_aba': False}
+                'random': {'n': 0, 'seed': 1, 'maxops': 1, 'traces': 0, 'nslots': [3], 'threads': [2]}, 'known_aba': False,
+                'only_prop': prop}
         g = gorun.run_harness('^TestVS_FreeList$', HARNESS, INSTR, inputs={'job': wjob}, timeout=600)
         if g.result and g.result.get('violations'):
             v = g.result.get('violations')[0]
